@@ -124,6 +124,11 @@ CASES += [
  ("C19lin", "stochastic/_ranker.py", "                if r > 0:\n                    scores /= r", "                if r > np.finfo(scores.dtype).eps:\n                    scores /= r", "break"),
  ("C19lin", "stochastic/_ranker.py", "                        weights = scores / tot", "                        weights = scores", "break"),
  ("C19lin", "stochastic/_ranker.py", "                scores -= lb\n", "                scores -= ub\n", "break"),
+ ("C06rank", "metrics/ranking/_dcg.py", "            scores = gains.reindex(items, fill_value=0).values\n            if self.k:\n                gains = gains.nlargest(n=self.k)", "            scores = gains.reindex(items, fill_value=0).values\n            if self.k:\n                gains = gains.nsmallest(n=self.k)", "break"),
+ ("C06rank", "metrics/ranking/_dcg.py", "            scores[np.isin(items, test.ids())] = 1.0\n            n = len(test)", "            scores[np.isin(items, test.ids())] = 1.0\n            n = len(items)", "break"),
+ ("C06rank", "metrics/ranking/_dcg.py", "        realized = array_dcg(np.require(scores, np.float32), self.discount)\n        return realized / ideal", "        realized = array_dcg(np.require(scores, np.float32), self.discount)\n        return ideal / realized", "break"),
+ ("C06rank", "metrics/ranking/_dcg.py", "        realized = array_dcg(np.require(scores, np.float32), self.discount)\n        return realized / ideal", "        dcg = array_dcg(np.require(scores, np.float32), self.discount)\n        return dcg / ideal", "keep"),
+ ("C06rank", "metrics/ranking/_dcg.py", "                gains = gains.sort_values(ascending=False)\n            ideal = array_dcg", "                gains = gains.sort_values(ascending=True)\n            ideal = array_dcg", "break"),
  ("C06rank", "metrics/ranking/_pr.py", "        return ngood / nrecs", "        return ngood / len(test)", "break"),
  ("C06rank", "metrics/ranking/_recip.py", "            return 1.0 / (npz[0] + 1.0)", "            return 1.0 / npz[0]", "break"),
  ("C06rank", "metrics/ranking/_rbp.py", "            max = np.sum(disc[: min(nrel, k)])", "            max = np.sum(disc[:nrel])", "break"),
